@@ -99,3 +99,133 @@ def exc_name(obs):
     from symx.check import Raised
 
     return obs.name if isinstance(obs, Raised) else None
+
+
+# ------------------------------------------------------------------------------------------------
+# expression programs over Scalars and the independent dimensional model (C03, C04, C05, C10, C20)
+# ------------------------------------------------------------------------------------------------
+BASIS = {
+    "L": {"units": ["m", "cm", "km", "ft"], "cats": ["length", "depth"], "qt": "length"},
+    "T": {"units": ["s", "min", "h"], "cats": ["time"], "qt": "time"},
+    "M": {"units": ["kg", "g", "lbm"], "cats": ["mass"], "qt": "mass"},
+}
+
+
+def n_leaves(spec):
+    if spec[0] == "leaf":
+        return 1
+    if spec[0] == "num":
+        return 0
+    return sum(n_leaves(s) for s in spec[1:] if isinstance(s, list))
+
+
+def build(spec, V, ctr=None, cls=None):
+    """Builds a value object by applying the REAL barril operators. spec:
+    ["leaf", unit, category] | ["mul", a, b] | ["div", a, b] | ["add", a, b] | ["sub", a, b] |
+    ["fdiv", a, b] | ["pow", a, n] | ["num", k]"""
+    from barril.units import Scalar
+
+    if ctr is None:
+        ctr = [0]
+    op = spec[0]
+    if op == "leaf":
+        x = V["x%d" % ctr[0]]
+        ctr[0] += 1
+        return (cls or Scalar)(x, spec[1], spec[2])
+    if op == "num":
+        return spec[1]
+    if op == "pow":
+        return build(spec[1], V, ctr, cls) ** spec[2]
+    a = build(spec[1], V, ctr, cls)
+    b = build(spec[2], V, ctr, cls)
+    if op == "mul":
+        return a * b
+    if op == "div":
+        return a / b
+    if op == "fdiv":
+        return a // b
+    if op == "add":
+        return a + b
+    if op == "sub":
+        return a - b
+    raise KeyError(op)
+
+
+def spec_str(spec):
+    op = spec[0]
+    if op == "leaf":
+        return "%s[%s]" % (spec[1], spec[2]) if spec[2] != BASIS_CAT_DEFAULT.get(spec[1]) else spec[1]
+    if op == "num":
+        return repr(spec[1])
+    if op == "pow":
+        return "(%s)**%d" % (spec_str(spec[1]), spec[2])
+    sym = {"mul": "*", "div": "/", "fdiv": "//", "add": "+", "sub": "-"}[op]
+    return "(%s%s%s)" % (spec_str(spec[1]), sym, spec_str(spec[2]))
+
+
+BASIS_CAT_DEFAULT = {u: b["cats"][0] for b in BASIS.values() for u in b["units"]}
+
+_KCACHE = {}
+
+
+def kfactor(unit):
+    from barril.units import UnitDatabase
+
+    db = UnitDatabase.GetSingleton()
+    key = (id(db), unit)
+    if key not in _KCACHE:
+        _KCACHE[key] = unit_factor(db, unit)
+    return _KCACHE[key]
+
+
+def qmap(obj):
+    """[(category, unit, exp)] of a value object / quantity, as plain data"""
+    q = obj.GetQuantity() if hasattr(obj, "GetQuantity") else obj
+    return [(c, ue[0], ue[1]) for c, ue in q.GetCategoryToUnitAndExps().items()]
+
+
+def mag_of(value, qm):
+    """base-unit magnitude term: value * prod k(unit)^exp"""
+    e = term(value)
+    for _c, u, ex in qm:
+        e = e * zpow(kfactor(u), ex)
+    return e
+
+
+def mag(obj):
+    return mag_of(obj.GetAbstractValue(), qmap(obj))
+
+
+def dims_of(qm):
+    from barril.units import UnitDatabase
+
+    db = UnitDatabase.GetSingleton()
+    d = {}
+    for c, _u, ex in qm:
+        qt = db.GetCategoryQuantityType(c)
+        d[qt] = d.get(qt, 0) + ex
+    return {k: v for k, v in d.items() if v != 0}
+
+
+def dims(obj):
+    return dims_of(qmap(obj))
+
+
+def model_dims(spec):
+    """exponent vector predicted by dimensional analysis (independent of barril's implementation)"""
+    op = spec[0]
+    if op == "leaf":
+        qt = [b["qt"] for b in BASIS.values() if spec[1] in b["units"]][0]
+        return {qt: 1}
+    if op == "num":
+        return {}
+    if op == "pow":
+        return {k: v * spec[2] for k, v in model_dims(spec[1]).items()}
+    a, b = model_dims(spec[1]), model_dims(spec[2])
+    if op in ("add", "sub"):
+        return a
+    sign = 1 if op == "mul" else -1
+    d = dict(a)
+    for k, v in b.items():
+        d[k] = d.get(k, 0) + sign * v
+    return {k: v for k, v in d.items() if v != 0}
